@@ -4,6 +4,7 @@ import SfVerif.Gen.Consts
 import SfVerif.Lemmas.GenFnsLogs
 import SfVerif.Lemmas.Frame2
 import SfVerif.Lemmas.Frame4
+import SfVerif.Lemmas.Sched
 import SfVerif.Gen.WasmFinalize
 /-! C05 — the host reads back the most recent log bytes, in order, at any moment. -/
 namespace SfVerif.Props.C05
@@ -198,6 +199,25 @@ example : (∀ op ∈ fuseLogs [.log 3 1, .root, .logreq 2, .logcopy 2 5], op.sp
   intro op h
   simp [fuseLogs] at h
   rcases h with h | h | h <;> subst h <;> rfl
+
+/-- **C05 under every interleaving of any number of threads**: whatever the other threads do and
+    wherever their steps fall — also between this thread's plan request and its copy — the host
+    reads back, for each thread, the tail of what *that thread* logged in its current invocation
+    (log calls in either form; pairing is judged on the thread's own script, not on the global
+    schedule). Uses the schedule theorem behind C14 (`Lemmas/Sched`). -/
+theorem C05_logs_stay_per_thread (w : Nat) (sched : Sys.Sched) (t : Nat)
+    (hs : ∀ op ∈ fuseLogs (SfVerif.Props.C14.script t sched), op.splitLog = false) :
+    Logs.read LOG_CAPACITY ((Sys.runSched w {} sched).1.get t).ctx.logs =
+      lastN LOG_CAPACITY (msgsSince [] (fuseLogs (SfVerif.Props.C14.script t sched))).flatten := by
+  have h := (SfVerif.Props.C14.noninterference_from w t sched {}).2
+  have h0 : ({} : Sys).get t = {} := by simp [Sys.get]
+  rw [h, h0]
+  exact C05_every_history_either_form w _ hs
+
+/-- non-vacuity: another thread's request and copy fall between this thread's request and copy -/
+example : fuseLogs (SfVerif.Props.C14.script 0
+    [(0, Op.logreq 3), (1, Op.logreq 5), (1, Op.logcopy 5 2), (0, Op.logcopy 3 1)]) = [Op.log 3 1] := by
+  rfl
 
 /-- the wasm-only `finalize` export (not compiled natively; regenerated from provider/src/lib.rs) hands
     the host six words: the last four are the ring's read pointers in the order `read_ptrs` returns them — the two segments `C05_read_is_tail` speaks about -/
